@@ -86,12 +86,23 @@ def known_findings():
     with open(os.path.join(VERIF, "known_findings.json")) as f:
         out = list(json.load(f))
     d = os.path.join(VERIF, "known_findings.d")
+    ids = set(e.get("id") for e in out)
     if os.path.isdir(d):
         for fn in sorted(os.listdir(d)):
             if fn.endswith(".json"):
                 with open(os.path.join(d, fn)) as f:
-                    out.extend(json.load(f))
-    return out
+                    for e in json.load(f):
+                        if e.get("id") not in ids:
+                            out.append(e)
+                            ids.add(e.get("id"))
+    # an entry that a staging file no longer lists (finding repaired) must not linger in the main file:
+    staged_props = set(fn[:-5] for fn in os.listdir(d) if fn.endswith(".json")) if os.path.isdir(d) else set()
+    staged_ids = set()
+    for fn in (os.listdir(d) if os.path.isdir(d) else []):
+        if fn.endswith(".json"):
+            with open(os.path.join(d, fn)) as f:
+                staged_ids |= set(e.get("id") for e in json.load(f))
+    return [e for e in out if e.get("status") != "known" or e.get("property") not in staged_props or e.get("id") in staged_ids]
 
 
 class Result:
